@@ -20,15 +20,6 @@ namespace PydraModel.WfCache
 
 variable (S : Sig)
 
-/-- No in-place input change after construct: `set i` never follows a `tconstruct i` / `run i` (which may memoise). -/
-def okHist (touched : List Nat) : List (Op S) → Bool
-  | [] => true
-  | .set i _ _ :: r => !(touched.contains i) && okHist touched r
-  | .tconstruct i :: r => okHist (i :: touched) r
-  | .run i _ :: r => okHist (i :: touched) r
-  | .construct _ _ :: r => okHist touched r
-  | .clear :: r => okHist touched r
-
 /-- The memoised workflow of a task is indistinguishable from a fresh construction on the task's current values. -/
 def MemoOK (t : TaskSt S) (wf : WfObj S) : Prop :=
   ∃ g, S.ctor t.cls (mask S Fld.all t.vals) = .ok g ∧
